@@ -897,3 +897,121 @@ def fidelity(tier, seed):
     """A-FRONT guard: the scalar functions of the files under contract, interpreter (float mode) vs compiled real code, bit for bit"""
     from gm2v import fidelity as _fid
     return _fid.scalar_guard(['src/gm2_ffunctions.cpp'], ['src/gm2_dilog.cpp', 'src/gm2_numerics.cpp'], n_calls=25 if tier == 'quick' else 200, seed=seed)
+
+# ------------------------------------------------------------------------------------------------ quark Barr-Zee functions: definitions (math/ffunctions.m, 1607.06292 (61), (62))
+def _fcs_spec(xu, xd, qu, qd, phiy, Li2f, lnf):
+    """fCSd[xu, xd, qu, qd] of math/ffunctions.m (Eq. (61) of arXiv:1607.06292 with the documented misprint corrected, times the prefactor xd)"""
+    s_ = (qu + qd) / 4
+    c = (xu - xd) * (xu - xd) - qu * xu + qd * xd
+    cbar = (xu - qu) * xu - (xd + qd) * xd
+    lxu, lxd = lnf(xu), lnf(xd)
+    return xd * (-(xu - xd) + (cbar - c * (xu - xd)) * phiy + c * (Li2f(1 - xd / xu) - lxu * (lxd - lxu) / 2) + (s_ + xd) * lxd + (s_ - xu) * lxu)
+
+def replay_fcs(model, wd):
+    """the REAL f_CSd / f_CSu against the definition evaluated with 40 digits (Phi by the Davydychev-Tausk formula) on a fixed sweep"""
+    from gm2v import native
+    import mpmath as mp
+    mp.mp.dps = 40
+    def phi_over_y(xu, xd):
+        y = (xu - xd) ** 2 - 2 * (xu + xd) + 1
+        lam = mp.sqrt(y)
+        xp, xm = (1 + xd - xu - lam) / 2, (1 - xd + xu - lam) / 2
+        phi = lam * (2 * mp.log(xp) * mp.log(xm) - mp.log(xd) * mp.log(xu) - 2 * mp.polylog(2, xp) - 2 * mp.polylog(2, xm) + mp.pi ** 2 / 3)
+        return mp.re(phi / y)
+    def fcsd(xu, xd, qu, qd):
+        s_, c, cbar = (qu + qd) / 4, (xu - xd) ** 2 - qu * xu + qd * xd, (xu - qu) * xu - (xd + qd) * xd
+        lxu, lxd = mp.log(xu), mp.log(xd)
+        return xd * (-(xu - xd) + (cbar - c * (xu - xd)) * phi_over_y(xu, xd) + c * (mp.re(mp.polylog(2, 1 - xd / xu)) - lxu * (lxd - lxu) / 2) + (s_ + xd) * lxd + (s_ - xu) * lxu)
+    def fcsu(xu, xd, qu, qd):
+        lxu, lxd = mp.log(xu), mp.log(xd)
+        return xu * (fcsd(xu, xd, qu + 2, qd + 2) / xd - mp.mpf(4) / 3 * (xu - xd - 1) * phi_over_y(xu, xd) - (lxd + lxu) * (lxd - lxu) / 3)
+    pts = [(xu, xd) for xu in (0.03, 0.3, 0.75, 2.0, 9.0) for xd in (1e-4, 6e-4, 1e-2, 0.2) if (xu - xd) ** 2 - 2 * (xu + xd) + 1 > 1e-3]
+    exe = native.build_scalar_driver(wd, [FF], ['src/gm2_dilog.cpp', 'src/gm2_numerics.cpp'],
+                                     [('d', 'f_CSd(a[0], a[1], a[2], a[3])', 4), ('u', 'f_CSu(a[0], a[1], a[2], a[3])', 4)])
+    qu, qd = 2.0 / 3, -1.0 / 3
+    vals = native.run_scalar_driver(exe, [(k, [xu, xd, qu, qd]) for (xu, xd) in pts for k in ('d', 'u')])
+    worst = (0, None)
+    for i, (xu, xd) in enumerate(pts):
+        for j, (nm, f) in enumerate((('f_CSd', fcsd), ('f_CSu', fcsu))):
+            want = f(mp.mpf(xu), mp.mpf(xd), mp.mpf(qu), mp.mpf(qd))
+            got = mp.mpf(vals[2 * i + j])
+            err = abs(got - want) / max(abs(want), mp.mpf(10) ** -8)
+            if err > worst[0]:
+                worst = (err, nm, xu, xd, float(got), mp.nstr(want, 15))
+    return bool(worst[0] > 1e-6), 'worst of %d points: %s' % (2 * len(pts), worst)
+
+@obligation('C02.def.f_CSd_f_CSu', fns=[(FF, 'f_CSd'), (FF, 'f_CSu'), (FF, 'phi_over_y')], replay=replay_fcs)
+def _(ctx):
+    """ensures for all positive arguments, on the generic paths: f_CSd == fCSd and f_CSu == xu (fCSd[xu, xd, qu+2, qd+2]/xd - 4/3 (xu-xd-1) Phi/y - 1/3 (ln xd + ln xu)(ln xd - ln xu))
+    of math/ffunctions.m (Eqs. (61), (62) of arXiv:1607.06292 with the prefactors and the corrected misprint documented in the code), with phi_over_y and dilog by their
+    contracts; phi_over_y itself: Phi(xd, xu, 1)/((xu-xd)^2 - 2(xu+xd) + 1) outside its two guard windows and the documented analytic limits inside; f_CSd(xu, 0) == 0"""
+    xu, xd, qu, qd = [ctx.real(n) for n in ('xu', 'xd', 'qu', 'qd')]
+    pre = [xu > 0, xd > 0]
+    PHI = z3.Function('phi_over_y', z3.RealSort(), z3.RealSort(), z3.RealSort())
+    stubs = {'phi_over_y': lambda it, a, t: PHI(z3real(a[0]), z3real(a[1])), 'dilog': uf('Li2')}
+    LN = lambda t: __import__('gm2v.specs', fromlist=['ln']).ln(t)
+    LI = lambda t: __import__('gm2v.specs', fromlist=['UF']).UF('Li2')(z3real(t))
+    for fn in ('f_CSd', 'f_CSu'):
+        it, ps = run(ctx, fn, [xu, xd, qu, qd], pre, stubs)
+        n = 0
+        for k, (s, r, e) in enumerate(ps):
+            if e is not None or r is None or isinstance(r, str):
+                continue
+            n += 1
+            if fn == 'f_CSd':
+                want = _fcs_spec(xu, xd, qu, qd, PHI(xu, xd), LI, LN)
+            else:
+                want = xu * (_fcs_spec(xu, xd, qu + 2, qd + 2, PHI(xu, xd), LI, LN) / xd - Fr(4, 3) * (xu - xd - 1) * PHI(xu, xd) - (LN(xd) + LN(xu)) * (LN(xd) - LN(xu)) / 3)
+            ctx.prove_ring('%s.path%d.definition' % (fn, k), [(z3real(r), want)])
+        ctx.record('%s.paths' % fn, PROVED if n >= 1 else FAILED, 'B', 0, '%d generic paths' % n)
+    # f_CSd at xd == 0
+    it0 = Interp(ctx.w, mode='sym', stubs=stubs, assumptions=[xu > 0])
+    r0 = it0.run_paths(lambda: it0.call('f_CSd', [xu, Fr(0), qu, qd], file=FF))
+    ok0 = all(e is None and (r == 0) for s, r, e in r0 if not isinstance(r, str))
+    ctx.record('f_CSd.zero_xd', PROVED if ok0 and r0 else FAILED, 'B', 0, 'f_CSd(xu, 0, qu, qd) == 0')
+    # phi_over_y
+    PH3 = z3.Function('Phi', z3.RealSort(), z3.RealSort(), z3.RealSort(), z3.RealSort())
+    it, ps = run(ctx, 'phi_over_y', [xu, xd], pre + [xd != 1], {'Phi': lambda it_, a, t: PH3(*[z3real(x) for x in a])})
+    sq = __import__('gm2v.specs', fromlist=['UF']).UF('sqrt')(z3real(xd))
+    lim_minus = -LN(absz_c02(-1 + sq)) / sq + LN(xd) / (2 * (-1 + sq))
+    lim_plus = LN(1 + sq) / sq - LN(xd) / (2 * (1 + sq))
+    generic = PH3(xd, xu, z3.RealVal(1)) / ((xu - xd) * (xu - xd) - 2 * (xu + xd) + 1)
+    kinds = set()
+    for k, (s, r, e) in enumerate(ps):
+        if e is not None or r is None:
+            continue
+        got = z3real(r)
+        hit = None
+        for nm, want in (('generic', generic), ('limit_xu=(1-sqrt(xd))^2', lim_minus), ('limit_xu=(1+sqrt(xd))^2', lim_plus)):
+            try:
+                if ring.identity(_strip_abs(got), _strip_abs(want)):
+                    hit = nm
+                    break
+            except ring.NotRing:
+                pass
+        if hit is None:
+            ctx.record('phi_over_y.path%d' % k, FAILED, 'B', 0, 'neither Phi(xd, xu, 1)/y nor one of the two documented limits: %s' % str(got)[:200])
+        else:
+            kinds.add(hit)
+            ctx.record('phi_over_y.path%d.%s' % (k, hit), PROVED, 'B', 0, 'returns the documented expression', solver='ring normalisation (sympy)')
+    ctx.record('phi_over_y.paths', PROVED if len(kinds) == 3 else FAILED, 'B', 0, 'expressions found: %s' % sorted(kinds))
+
+def absz_c02(t):
+    return z3.If(t >= 0, t, -t)
+
+def _strip_abs(t):
+    """|x| written as If(x >= 0, x, -x) becomes the atom abs(x) so that ring normalisation can treat it as a symbol"""
+    AB = z3.Function('abs_atom', z3.RealSort(), z3.RealSort())
+    def rec(e):
+        if z3.is_app(e) and e.decl().kind() == z3.Z3_OP_ITE and e.num_args() == 3:
+            a, b = e.arg(1), e.arg(2)
+            try:
+                if ring.identity(a, -b):
+                    pos = a if not (z3.is_app(a) and a.decl().kind() == z3.Z3_OP_UMINUS) else b
+                    return AB(rec(pos))
+            except ring.NotRing:
+                pass
+        if z3.is_app(e) and e.num_args() > 0:
+            return e.decl()(*[rec(c) for c in e.children()])
+        return e
+    return rec(t)
